@@ -293,8 +293,20 @@ impl Sub for Duration {
         rhs.normalize();
         match self.centuries.checked_sub(rhs.centuries) {
             None => {
-                // Underflowed, so we've hit the min
-                return Self::MIN;
+                if self.centuries < 0 {
+                    // Underflowed, so we've hit the min
+                    return Self::MIN;
+                }
+                // Overflowed, so we've hit the max, unless borrowing one century for the nanoseconds brings us back into range.
+                if i32::from(self.centuries) - i32::from(rhs.centuries) - 1 == i32::from(i16::MAX)
+                    && self.nanoseconds < rhs.nanoseconds
+                {
+                    return Self::from_parts(
+                        i16::MAX,
+                        self.nanoseconds + (NANOSECONDS_PER_CENTURY - rhs.nanoseconds),
+                    );
+                }
+                return Self::MAX;
             }
             Some(centuries) => {
                 self.centuries = centuries;
